@@ -2,6 +2,13 @@
 
 package receiver
 
+import "os"
+
 // VerifRecvFile1 exposes recvFile1 (open the local basis, receiveData, rename)
 // to the verification harness under /verif.
 func (rt *Transfer) VerifRecvFile1(f *File) error { return rt.recvFile1(f) }
+
+// VerifGenerateAndSendSums exposes generateAndSendSums.
+func (rt *Transfer) VerifGenerateAndSendSums(in *os.File, fileLen int64) error {
+	return rt.generateAndSendSums(in, fileLen)
+}
